@@ -22,6 +22,8 @@ class NoteOffEvent:
     timestamp: float
     note: int
     channel: int
+    # The same instant on the timeline's clock, used when the track leaves the timeline before the note ends.
+    timeline_timestamp: Optional[float] = None
 
 class Track:
     def __init__(self,
@@ -497,7 +499,7 @@ class Track:
 
                         note_dur = event.duration * gate
                         note_off_time = self.current_time + note_dur
-                        note_off = NoteOffEvent(note_off_time, note, channel)
+                        note_off = NoteOffEvent(note_off_time, note, channel, self.timeline.current_time + note_dur)
                         self.note_offs.append(note_off)
                 if event.pitchbend is not None:
                     self.output_device.pitch_bend(event.pitchbend, channel)
